@@ -589,7 +589,7 @@ class World:  # pylint: disable=too-many-instance-attributes
         if not raw_loose:
             return None
         key = raw_loose[op['a'] % len(raw_loose)]
-        return {'key': key, 'how': op['f'] % 3, 'via': op['b'] % 2}
+        return {'key': key, 'how': op['f'] % 5, 'via': op['b'] % 2}
 
     def x_damage_readd(self, rop):
         key = rop['key']
@@ -599,8 +599,13 @@ class World:  # pylint: disable=too-many-instance-attributes
             damaged = b'garbage' + data[:5]
         elif rop['how'] == 1:
             damaged = data[: len(data) // 2] if data else b'x'
-        else:
+        elif rop['how'] == 2 or not data:
             damaged = data + b'\x00'
+        elif rop['how'] == 3:  # same size, one byte flipped in the middle
+            mid = len(data) // 2
+            damaged = data[:mid] + bytes([data[mid] ^ 0x20]) + data[mid + 1 :]
+        else:  # same size, tail overwritten
+            damaged = data[:-3] + bytes(b ^ 0xFF for b in data[-3:])
         with open(path, 'wb') as fhandle:
             fhandle.write(damaged)
         if rop['via'] == 0:
